@@ -197,3 +197,50 @@ func Encode(frames []ref.Frame) (stream []byte, starts []int, headerMarks []int)
 	}
 	return
 }
+
+// BuildUTF8 is Build(..., ascii=true) with the payload of every data MESSAGE
+// (the concatenation of its fragments) replaced by valid UTF-8 made mostly of
+// multi-byte characters, so that fragment boundaries, caller buffers and
+// partial reads fall inside characters. Lengths are unchanged.
+func BuildUTF8(shapes []Shape, receiver ref.Side, rng *rand.Rand) []ref.Frame {
+	frames := Build(shapes, receiver, rng, true)
+	chars := []string{"\u00e9", "\u20ac", "\U0001f600", "\u0416", "\U0010ffff", "a", "\ud7ff"}
+	i := 0
+	for i < len(frames) {
+		if ref.IsControl(frames[i].H.Op) {
+			i++
+			continue
+		}
+		// collect the data frames of this message (control frames may sit in between)
+		var idx []int
+		total := 0
+		j := i
+		for ; j < len(frames); j++ {
+			if ref.IsControl(frames[j].H.Op) {
+				continue
+			}
+			idx = append(idx, j)
+			total += len(frames[j].Payload)
+			if frames[j].H.Fin {
+				j++
+				break
+			}
+		}
+		text := make([]byte, 0, total)
+		for k := rng.Intn(len(chars)); len(text) < total; k++ {
+			ch := chars[k%len(chars)]
+			if len(text)+len(ch) > total {
+				ch = "z"
+			}
+			text = append(text, ch...)
+		}
+		off := 0
+		for _, fi := range idx {
+			n := len(frames[fi].Payload)
+			frames[fi].Payload = append([]byte(nil), text[off:off+n]...)
+			off += n
+		}
+		i = j
+	}
+	return frames
+}
